@@ -932,7 +932,7 @@ func genCase(t *rapid.T) (Case, []string) {
 		"multi-level", "multi-level",
 		"lz4", "lz4", "zstd", "zstd",
 	})
-	if uniform(t, "rare", 100) == 57 {
+	if uniform(t, "rare", 100) >= 97 {
 		profile = "multi-level-res"
 	}
 	gcl = append(gcl, "profile-"+profile)
@@ -997,8 +997,27 @@ func genCase(t *rapid.T) (Case, []string) {
 			copies = min(copies, maxChunks)
 		}
 		seeds := rapid.SliceOfN(rapid.Uint32(), nb, nb).Draw(t, "block_seeds")
+		// multi-level files: half of them in phases, so that a dictionary stops being used right around the places
+		// where the index splits into branch nodes (every 255 chunks): phase lengths near 255 / 510, each phase using
+		// one block or none
+		var phase []int // per chunk: block index, or nb for "no dictionary helps"
+		if profile == "multi-level-res" && uniform(t, "phased", 2) == 0 {
+			for len(phase) < copies {
+				k := pick(t, "phase_len", []int{255, 254, 256, 253, 257, 509, 510, 1, 2, 30, 100})
+				w := uniform(t, "phase_block", nb+1)
+				for j := 0; j < k && len(phase) < copies; j++ {
+					phase = append(phase, w)
+				}
+			}
+			gcl = append(gcl, "phased-dictionary-use")
+		}
 		for i := 0; i < copies; i++ {
-			which := uniform(t, "which_block", nb+1)
+			which := 0
+			if phase != nil {
+				which = phase[i]
+			} else {
+				which = uniform(t, "which_block", nb+1)
+			}
 			if which == nb { // a chunk no dictionary helps
 				c.Payload = append(c.Payload, Seg{K: "r", N: bl, S: rapid.Uint32().Draw(t, "other_seed")})
 			} else {
